@@ -470,7 +470,7 @@ class WfGen:
                      "lm": rng.choice([None, None, "merge_nested"]), "pv": pv}
             elif is_arr(t) and is_opt(t["arr"]):
                 pv = rng.choice(["first_non_null", "the_only_non_null", "all_non_null", "all_non_null"])
-                if "/" in ref:
+                if True:   # (also for workflow inputs: both runners reject a (T?)[] source picked into a T sink)
                     # cwltool types the output of a scattered conditional step as (T[])? rather than (T?)[] and rejects
                     # first/the_only_non_null into a T sink statically: only all_non_null is in the common domain
                     pv = "all_non_null"
